@@ -7,8 +7,13 @@ IDX = ["i", "j", "k", "m"]
 
 
 def gen_request(rng, max_funcs=4, max_size=3, allow_internal=True, allow_single=True, allow_reduce=True,
-                allow_multi=True, max_rank=3, storages=("dict", "file_array", "shared_memory_dict")):
-    """Return a JSON-able valid map request (see harness/mapsym.py for the format)."""
+                allow_multi=True, max_rank=3, storages=("dict", "file_array", "shared_memory_dict"),
+                allow_zero_ext=False):
+    """Return a JSON-able valid map request (see harness/mapsym.py for the format).
+
+    allow_zero_ext: also produce mapped functions with NO mapped axis (`x[:] -> y[j]`: every input axis is ':', the
+    output has internal axes only; the function is called once).  Off by default (the random stream of the other
+    options is unchanged when it is off)."""
     sizes = {}
 
     def size_of(ix):
@@ -101,13 +106,16 @@ def gen_request(rng, max_funcs=4, max_size=3, allow_internal=True, allow_single=
                         if nm not in named:
                             named.append(nm)
             ins.append([a, ax])
-        if not named:  # a mapped function needs at least one mapped (external) axis
+        zero_ext = False
+        if not named and allow_zero_ext and allow_internal and rng.random() < 0.7:
+            zero_ext = True  # `x[:] -> y[j]`: no mapped axis at all, the output axes are all internal
+        elif not named:  # otherwise a mapped function gets at least one mapped (external) axis
             ins[0][1][0] = arrays[chosen[0]][0]
             named.append(arrays[chosen[0]][0])
         out_axes = named[:]
         rng.shuffle(out_axes)
         ish = []
-        if allow_internal and rng.random() < 0.3:
+        if zero_ext or (allow_internal and rng.random() < 0.3):
             for _ in range(rng.randint(1, 2) if rng.random() < 0.3 else 1):
                 a = next(fresh)
                 d = rng.randint(1, max_size)
@@ -142,11 +150,36 @@ def gen_request(rng, max_funcs=4, max_size=3, allow_internal=True, allow_single=
             arrays[o] = list(out_axes)
     if not funcs:
         return gen_request(rng, max_funcs, max_size, allow_internal, allow_single, allow_reduce, allow_multi,
-                           max_rank, storages)
+                           max_rank, storages, allow_zero_ext)
     # drop unused root inputs (surplus inputs are rejected by map)
     inputs = [kv for kv in inputs if kv[0] in used_roots]
     st = rng.choice(list(storages))
     return {"funcs": funcs, "inputs": inputs, "internal": internal_user, "storage": st}
+
+
+def to_user_level(case, rng, p_strip=0.8, p_perm=0.5):
+    """Turn an explicit request into a USER-LEVEL one (auto-generated MapSpecs): the `... -> y[...]` MapSpec of a
+    generator function is removed (pipefunc has to generate it from the consumers' axes).  Returns None when no
+    consumer indexes an output of such a function.  Adds "order": the order in which the functions are handed to
+    Pipeline([...])."""
+    import copy
+    c = copy.deepcopy(case)
+    consumed = {n for f in c["funcs"] if f.get("spec") for n, _ in f["spec"]["i"]}
+    stripped = 0
+    for f in c["funcs"]:
+        sp = f.get("spec")
+        if sp and not sp["i"] and (consumed & set(f["outs"])) and rng.random() < p_strip:
+            f["spec"] = None
+            f["stripped"] = True
+            stripped += 1
+    if not stripped:
+        return None
+    order = list(range(len(c["funcs"])))
+    if rng.random() < p_perm:
+        rng.shuffle(order)
+    c["order"] = order
+    c["kind"] = "auto"
+    return c
 
 
 def request_size(case):
